@@ -1455,8 +1455,14 @@ class ClientRequest(ClientRequestBase):
         return writer
 
     def _should_write(self, protocol: BaseProtocol) -> bool:
+        # A body is also due when the head announces one: a source that has lost
+        # all its bytes since Content-Length was computed must go through
+        # _write_bytes(), which fails the request on the shortfall.
         return (
-            self.body.size != 0 or self._continue is not None or protocol.writing_paused
+            self.body.size != 0
+            or self.headers.get(hdrs.CONTENT_LENGTH, "0") != "0"
+            or self._continue is not None
+            or protocol.writing_paused
         )
 
     async def _write_bytes(
